@@ -360,6 +360,10 @@ def valid(m: Model, op, paced=True, paced_out=True):
                 return False
             if paced and t[d][0] == "d" and m.eid(d) in m.tainted_ids:
                 return False
+            if paced and t[d][0] == "d" and any(n != d and is_under(n, d) for n in m.tainted_names):
+                # replacing an empty directory whose former entries were created/renamed/removed since the last drain:
+                # the arriving directory's contents would re-use those names (pacing condition of C01)
+                return False
         return True
     if k == "moveout":
         s = op[1]
